@@ -905,13 +905,14 @@ func (h *harness) loaderChannel(rng *vh.RNG) {
 			cases = append(cases, string(b))
 		}
 	}
+	h.chLoad.Exhaustive = h.o.Thorough()
 	if h.o.Thorough() {
 		gen("aef", "aa") // all 3^7
 		gen("af", "ff")  // all 2^7 with both temporary files present
 		gen("af", "ee")
 	} else {
-		gen("af", "aa") // all 2^7 with valid contents
-		gen("ae", "aa") // all 2^7 with empty files
+		gen("af", "aa")           // all 2^7 with valid contents
+		gen("ae", "aa")           // all 2^7 with empty files
 		for i := 0; i < 40; i++ { // a sample of mixed contents with temporary files around
 			b := []byte("aaaaaaaaa")
 			for j := range b {
@@ -974,7 +975,7 @@ func main() {
 		chFault: vh.NewChannel("seal.fault", "writeSealedFraction on an io.WriteSeeker whose k-th Seek/Write fails (k = 0..all+1; once, and from k on) vs SV.SealOps.writeIndex with the extracted generator facts and the section sizes measured on the fault-free run: result, calls issued, whether an error was dropped; non-trivial = the fault fired"),
 		orCrash: vh.NewOracle("crash.restart", "restart from the directory as it is at every file-operation boundary of sealing and release must serve every document - also with every sealing output that exists but was not fsynced since its last write cut short (quick: one random length, thorough: 0 / half / all-but-one byte); non-trivial = a point strictly inside the seal or a torn variant"),
 		orFault: vh.NewOracle("fault.restart", "after writeSealedFraction ran on an output whose k-th call failed, the harness does what frac.Seal/proxyFrac.Seal do next (error: nothing; nil: syncRename, directory sync, Active.Release) and restarts: every document must be served; quick: every k whose error was dropped (up to 6) + every 5th k, thorough: every k, once and persistent; non-trivial = the fault fired"),
-		orFull: vh.NewOracle("seal.diskfull", "the real rotate + proxyFrac.Seal in a child process whose RLIMIT_FSIZE is lowered before the seal, so that every write growing a file beyond the limit fails (EFBIG) - limits spread from 16 bytes to the size of the largest sealed file; then a restart must serve every document; non-trivial = the seal failed"),
+		orFull:  vh.NewOracle("seal.diskfull", "the real rotate + proxyFrac.Seal in a child process whose RLIMIT_FSIZE is lowered before the seal, so that every write growing a file beyond the limit fails (EFBIG) - limits spread from 16 bytes to the size of the largest sealed file; then a restart must serve every document; non-trivial = the seal failed"),
 		orSdocs: vh.NewOracle("sdocs.fault", "writeDocsInOrder on an io.Writer whose k-th write fails must return an error (or panic in the deferred release); non-trivial = the fault fired"),
 	}
 	rng := vh.NewRNG(o.Seed)
